@@ -672,3 +672,4 @@ def run(ctx):
     ctx.guarded(r, r6_damping_and_threshold)
     # this property quantifies over every shape and both backends, so it needs the evaluators it consults to be right
     ctx.include('C05', "the Jacobian is the gradient evaluators' output", skip=())
+    ctx.include('C14', 'parameters are bound to the equations by identity', only=('R5',))
